@@ -95,6 +95,41 @@ def _mk_override(kind):
 OVERRIDES = {k: _mk_override(k) for k in OVERRIDE_KINDS}
 
 
+# two handlers whose replacement is of the OTHER handled kind: a replacement is final, it is not dispatched again
+PAIRS = [("Identifier", ast.String("I"), "String", ast.Integer("5")),
+         ("Attribute", ast.Identifier("A"), "Identifier", ast.String("x")),
+         ("Integer", ast.Null(), "Null", ast.Boolean("true")),
+         ("Compare", ast.Boolean("true"), "Boolean", ast.Null()),
+         ("String", ast.List([ast.String("q")]), "List", ast.Integer("9"))]
+
+
+def _mk_pair(k1, m1, k2, m2):
+    return type("Ov2" + k1 + k2, (visitor.NodeTransformer,), {"visit_" + k1: (lambda self, node: m1), "visit_" + k2: (lambda self, node: m2)})
+
+
+PAIR_CLS = [_mk_pair(*p) for p in PAIRS]
+
+
+def ref_replace2(d: Any, k1: str, m1: Any, k2: str, m2: Any) -> Any:
+    if isinstance(d, tuple):
+        if d and d[0] == k1:
+            return m1
+        if d and d[0] == k2:
+            return m2
+        return tuple(ref_replace2(x, k1, m1, k2, m2) if isinstance(x, (tuple, list)) else x for x in d)
+    if isinstance(d, list):
+        return [ref_replace2(x, k1, m1, k2, m2) if isinstance(x, (tuple, list)) else x for x in d]
+    return d
+
+
+def check_override2(i: int, k: int, args: tuple) -> bool:
+    k1, m1, k2, m2 = PAIRS[k]
+    t = gen.build(SHAPES[i]["expr"], args)
+    before = gen.decode(t)
+    got = PAIR_CLS[k]().visit(t)
+    return gen.decode(got) == ref_replace2(before, k1, gen.decode(m1), k2, gen.decode(m2)) and gen.decode(t) == before
+
+
 def ref_replace(d: Any, kind: str, mark: Any) -> Any:
     """decoded-tuple level: replace every outermost node of `kind` by the marker."""
     if isinstance(d, tuple):
@@ -297,10 +332,10 @@ def _shapes(tier: str, seed: int) -> List[dict]:
     NEW = gen.NEW
     idns = ("Id", NEW, (NEW,))
     lol = ("List", [("List", [("Int", "1"), ("Str", NEW)]), ("Id", NEW, ())])
-    all_leaves = [("Id", NEW, ()), idns, ("Id", NEW, ("n1", NEW)), gen.path_shape(1), gen.path_shape(2), ("Null",),
+    all_leaves = [("Str", "a''''b"), ("Id", NEW, ()), idns, ("Id", NEW, ("n1", NEW)), gen.path_shape(1), gen.path_shape(2), ("Null",),
                   ("Str", NEW), lol, ("List", [])] + [(k, gen.LIT_SAMPLE[k]) for k in gen.LITERAL_KINDS
                                                       if k not in ("Str", "Null")]
-    small = [idns, gen.path_shape(2), ("Str", NEW), ("Null",), lol]
+    small = [idns, gen.path_shape(2), ("Str", NEW), ("Null",), lol, ("Str", "''")]
     exprs: List[Any] = list(all_leaves)
     unary_forms = list(gen.expr_shapes(1, all_leaves, named=True))
     # keep unary/call/list/lambda forms over all leaves, binary forms only over the small leaf set
@@ -359,6 +394,9 @@ def main() -> int:
         kp = (params + ", " if params else "") + "k: int"
         items.append(Item(f"ovr{i}", kp, f"({pre}) and 0 <= k < {len(OVERRIDE_KINDS)}",
                           f"check_override({i}, k, {argt})", describe=d, family="single-kind-override"))
+        if i % (3 if run.tier == "quick" else 1) == 0:
+            items.append(Item(f"ovr2_{i}", kp, f"({pre}) and 0 <= k < {len(PAIRS)}",
+                              f"check_override2({i}, k, {argt})", describe=d, family="two-kind-override"))
         vp = (params + ", " if params else "") + "v: int"
         sym_v = [j for j, (n, _) in enumerate(SHIPPED) if n not in HASHING]
         items.append(Item(f"ship{i}", vp, f"({pre}) and v in {tuple(sym_v)}",
@@ -384,7 +422,7 @@ def main() -> int:
     for v, (vn, _) in enumerate(ORM_VIS):
         items.append(Item(f"orm_{vn}", "k: int", f"0 <= k < {len(ORM_TREES)}", f"check_orm({v}, k)",
                           describe={"visitor": vn, "trees": len(ORM_TREES)}, family="orm-visitors-no-mutation", isolate=True))
-    header = "from verif.props.c16 import check_core, check_override, check_eq, check_shipped, check_orm, POOL\n"
+    header = "from verif.props.c16 import check_core, check_override, check_override2, check_eq, check_shipped, check_orm, POOL\n"
     run_items(run, header, items, per_condition_timeout=40 if run.tier == "quick" else 150,
               progress=bool(os.environ.get("VERIF_PROGRESS")))
     return run.finish()
